@@ -57,10 +57,15 @@ def _f(x):
   return ' '.join(repr(float(v)) for v in np.atleast_1d(x))
 
 
-def gen_scene(rng):
+def gen_scene(rng, no_contacts=False):
   """plane + 2-3 free bodies with 1-2 sphere/capsule geoms each; per-geom elasticity.
   Edge cases: tilted/offset plane (world geom with a non-trivial local pose), a static world
-  sphere/capsule, scalar or absent elasticity."""
+  sphere/capsule, scalar or absent elasticity; `no_contacts`: one body, one sphere, no plane
+  (contact.get returns None)."""
+  if no_contacts:
+    xml = ('<mujoco model="c10"><worldbody><body name="b0" pos="0 0 1"><freejoint/>'
+           '<geom name="g0_0" type="sphere" size="0.1"/></body></worldbody></mujoco>')
+    return xml, dict(nb=1, elasticity=[0.0], body=[0], types=['sphere'], tilt=False, emode='default')
   geoms = []     # dict(name, body(-1 world), type, size, pos, quat, e)
   tilt = rng.random() < 0.5
   if tilt:
@@ -339,7 +344,7 @@ def run_cases(ctx, n_scenes, n_poses, seed_offset=0, budget_s=None, spec_only=Fa
   for si in range(n_scenes):
     if budget_s is not None and time.time() - t0 > budget_s:
       break
-    xml, meta = gen_scene(rng)
+    xml, meta = gen_scene(rng, no_contacts=(si == 1))
     sc = Scene(xml, meta)
     hist['scenes'] += 1
     hist['tilted_plane'] += meta['tilt']
